@@ -1,5 +1,6 @@
 import QuillModel.Uspsc.Proofs
 import QuillModel.Uspsc.Capacity
+import QuillModel.Uspsc.Trace
 /-!
 # C02 — unbounded queue: record stream intact across growth/shrink, retired nodes never touched, within the cap
 
@@ -38,6 +39,41 @@ theorem C02_chain (o : UParams) (ho : UOrdersOK o) (cap : Nat) (batch : Nat → 
       ((urun o (uinit cap batch) ops).nodes k).q.wHist.headD 0 = ((urun o (uinit cap batch) ops).nodes k).q.wpos :=
   let h := ureachable_inv o ho ops _ (uinit_inv o cap batch hc) hr
   ⟨h.cp, h.len, h.sealK⟩
+
+/-- **Every committed record exactly once, in order, across growth and shrink — over the whole schedule** (audit
+    round: `C02_reachable_safe` + `C02_chain` state the ingredients per step; this is the stream statement the docstring
+    of `C02_chain` argues informally). For every legal schedule of producer steps (write, commit, `publish` = grow or
+    shrink to any capacity), consumer steps (load, read, commit, `seeNext`, `switch` + delete) and every legal stale
+    load: the sequence of records the consumer read (`readsOfU ops`, in schedule order, over all nodes) is a **prefix**
+    of the sequence the producer wrote (`writesOfU ops`) — none lost at a switch, none duplicated, none reordered, the old
+    buffer finished before the new one; and the two traces are the per-node ghost fields read node after node
+    (`recsOf`: nodes `0 … pi` for the writes; the nodes below `ci` completely, then `nread` records of node `ci`, for the
+    reads). -/
+theorem C02_trace_fifo (o : UParams) (ho : UOrdersOK o) (cap : Nat) (batch : Nat → Nat) (hc : 0 < cap)
+    (ops : List UOp) (hr : URun o (uinit cap batch) ops) :
+    readsOfU ops <+: writesOfU ops ∧
+    writesOfU ops = recsOf (urun o (uinit cap batch) ops).nodes ((urun o (uinit cap batch) ops).pi + 1) ∧
+    readsOfU ops = recsOf (urun o (uinit cap batch) ops).nodes (urun o (uinit cap batch) ops).ci ++
+      (urun o (uinit cap batch) ops).cnode.q.recs.take (urun o (uinit cap batch) ops).cnode.q.nread := by
+  have t0 : TI (uinit cap batch) [] [] := ⟨by simp [uinit, recsOf, init], by simp [uinit, recsOf, init, US.cnode], fun k _ => rfl⟩
+  have t := ti_run o ho ops _ [] [] (uinit_inv o cap batch hc) hr t0
+  have hinv := ureachable_inv o ho ops _ (uinit_inv o cap batch hc) hr
+  simp only [List.nil_append] at t
+  refine ⟨?_, t.w, t.r⟩
+  rw [t.w, t.r]
+  generalize urun o (uinit cap batch) ops = s at hinv
+  obtain ⟨d, hd⟩ : ∃ d, s.pi + 1 = (s.ci + 1) + d := ⟨s.pi - s.ci, by have := hinv.cp; omega⟩
+  rw [hd]
+  refine List.IsPrefix.trans ?_ (recsOf_prefix s.nodes (s.ci + 1) d)
+  rw [recsOf_succ]
+  exact (List.prefix_append_right_inj _).mpr (List.take_prefix _ _)
+
+/-- non-vacuity: on the grow-and-switch schedule of the example below the consumer read `[8, 12]` — one record from the
+    old node, one from the new — which is all that was written -/
+example : readsOfU [.p (.write 8), .p .commitW, .publish 16, .p (.write 12), .p .commitW,
+     .c (.loadW 8), .c (.read 8), .seeNext, .c (.loadW 8), .switch, .c (.loadW 12), .c (.read 12)] = [8, 12] ∧
+    writesOfU [.p (.write 8), .p .commitW, .publish 16, .p (.write 12), .p .commitW,
+     .c (.loadW 8), .c (.read 8), .seeNext, .c (.loadW 8), .switch, .c (.loadW 12), .c (.read 12)] = [8, 12] := by decide
 
 /-- **Within the cap** (`_handle_full_queue`): a node is allocated only with a capacity that is a doubling
     of the current one, holds the record and does not exceed the maximum; -/
